@@ -98,6 +98,10 @@ def lean_str(s: str) -> str:
     return '"' + s.replace('\\', '\\\\').replace('"', '\\"') + '"'
 
 
+def lean_chars(s: str) -> str:
+    return '[' + ', '.join("'" + (c if c not in "'\\" else '\\' + c) + "'" for c in s) + ']'
+
+
 def generate() -> str:
     from eascheduler.helpers import time_replace
     from eascheduler.producers import prod_sun
@@ -122,6 +126,9 @@ def generate() -> str:
            f'def sunCacheEvict : Nat := {int(cache_evict.group(1)) if cache_evict else 0}',
            'def dayNames : List (String × Nat) := [' + ', '.join(f'({lean_str(k)}, {v})' for k, v in days.items()) + ']',
            'def monthNames : List (String × Nat) := [' + ', '.join(f'({lean_str(k)}, {v})' for k, v in months.items()) + ']',
+           '/-- the same tables as lists of characters (kernel-friendly) -/',
+           'def dayNamesC : List (List Char × Nat) := [' + ', '.join(f'({lean_chars(k)}, {v})' for k, v in days.items()) + ']',
+           'def monthNamesC : List (List Char × Nat) := [' + ', '.join(f'({lean_chars(k)}, {v})' for k, v in months.items()) + ']',
            'def dstMonthOrder : List Nat := [' + ', '.join(map(str, mo)) + ']',
            'def dstHourOrder : List Nat := [' + ', '.join(map(str, ho)) + ']',
            '', 'end Ea.Gen', '']
